@@ -299,7 +299,10 @@ def marshalM (v : V) : R (Bytes × V) := do
   | .obj "Bucket" [_, .num w, .num wp, .num wg, p, .list as] => do
     let (bs, as', e) ← marshalList Action.marshalM as false
     if e then .err
-    else .ok (be16 l ++ be16 (n16 w) ++ be32 (n32 wp) ++ be32 (n32 wg) ++ zeros 4 ++ bs,
+    else
+      -- the padding Len() counts is written: data is extended with zeros up to b.Length
+      let body := be16 l ++ be16 (n16 w) ++ be32 (n32 wp) ++ be32 (n32 wg) ++ zeros 4 ++ bs
+      .ok (body ++ zeros (l.toNat - body.length),
               .obj "Bucket" [V.u16 l, .num w, .num wp, .num wg, p, .list as'])
   | _ => .panic
 def unmarshalP (recv : V) (data : Slice) : R (V × Bool) :=
@@ -479,11 +482,13 @@ def lenM : V → R (UInt16 × V)
     .ok (8 + ml + 40, .obj "FlowRemoved" [h, ck, pr, rs, tid, ds, dn, it, ht, pc, bc, m'])
   | _ => .panic
 def marshalM (v : V) : R (Bytes × V) := do
+  let (l0, v) ← lenM v            -- f.Header.Length = f.Len()
   let (l, v) ← lenM v             -- data = make([]byte, int(f.Len()))
   match v with
   | .obj "FlowRemoved" [h, .num ck, .num pr, .num rs, .num tid, .num ds, .num dn, .num it, .num ht, .num pc,
       .num bc, m] => do
-    let hb ← Header.bytes h        -- Header.Length is NOT updated here
+    let h := Header.setLength l0 h
+    let hb ← Header.bytes h
     let fixed := [pCopyAdv hb 8, pU64 ck, pU16 pr, pU8 rs, pU8 tid, pU32 ds, pU32 dn, pU16 it, pU16 ht,
       pU64 pc, pU64 bc]
     let _ ← fill l.toNat fixed     -- the fixed part is written (and may panic) before the Match is marshalled
@@ -515,9 +520,9 @@ def unmarshal (recv : V) (data : Slice) : R V :=
     else pure (.obj "FlowRemoved" [h, V.u64 ck, V.u16 pr, V.u8 rs, V.u8 tid, V.u32 ds, V.u32 dn, V.u16 it, V.u16 ht,
       V.u64 pc, V.u64 bc, m])
   | _ => .panic
-/-- NewFlowRemoved() with the transaction id supplied (Header.Type stays 0) -/
+/-- NewFlowRemoved() with the transaction id supplied -/
 def new (xid : Nat) : V :=
-  .obj "FlowRemoved" [newHeader 4 xid, .num 0, .num 0, .num 0, .num 0, .num 0, .num 0, .num 0, .num 0, .num 0, .num 0,
+  .obj "FlowRemoved" [.obj "Header" [.num 4, .num Gen.openflow13.Type_FlowRemoved, .num 8, V.u32 (n32 xid)], .num 0, .num 0, .num 0, .num 0, .num 0, .num 0, .num 0, .num 0, .num 0, .num 0,
     Match.new]
 end FlowRemoved
 
